@@ -20,6 +20,7 @@ mod bombs;
 
 #[global_allocator]
 static GLOBAL: bombs::Counting = bombs::Counting;
+#[cfg(feature = "robotics")]
 mod robotics;
 mod snippet;
 mod scalarrt;
@@ -60,6 +61,7 @@ fn main() {
         ("total", m) => total::run(m, &a),
         ("bombs", m) => bombs::run(m, &a),
         ("pathmap", m) => pathmap::run(m, &a),
+        #[cfg(feature = "robotics")]
         ("robotics", m) => robotics::run(m, &a),
         ("iofault", m) => iofault::run(m, &a),
         ("reader", m) => reader::run(m, &a),
